@@ -285,6 +285,13 @@ Theorem %s_api_ReadRegisterList_collects : forall c rl cn v G e s', reglist_ok r
               snd (fst (stream_register_list c all_handlers rl cn v)) = acc.
 Proof. exact go_ReadRegisterList_collects. Qed.
 Print Assumptions %s_api_ReadRegisterList_collects.
+
+(* ... on the register list of every product id *)
+Theorem %s_api_read_product_lists : forall c id cn v,
+  readlist_rel (go_ReadRegisterList c tt (snd (obs_reglist id)) (mkA (mkD v false) [] cn))
+               (GV.Api.Maps.read_register_list c (snd (obs_reglist id)) cn v).
+Proof. exact go_read_product_lists. Qed.
+Print Assumptions %s_api_read_product_lists.
 '''
 A['connect'] = '''(* NewRegisterApi of the translated source against the model's connect: ping, then the device id, an
    object iff both succeed and the id is a known product with a register list -- then product = id and
